@@ -83,6 +83,10 @@ static HashEntry *get_or_insert_entry(HashMap *map, char *key, int keylen) {
 
   uint64_t hash = fnv_hash(key, keylen);
 
+  // A tombstone may be reused only after the probe has shown that the
+  // key is not stored further down the chain.
+  HashEntry *tomb = NULL;
+
   for (int i = 0; i < map->capacity; i++) {
     HashEntry *ent = &map->buckets[(hash + i) % map->capacity];
 
@@ -90,17 +94,25 @@ static HashEntry *get_or_insert_entry(HashMap *map, char *key, int keylen) {
       return ent;
 
     if (ent->key == TOMBSTONE) {
-      ent->key = key;
-      ent->keylen = keylen;
-      return ent;
+      if (!tomb)
+        tomb = ent;
+      continue;
     }
 
     if (ent->key == NULL) {
+      if (tomb)
+        break;
       ent->key = key;
       ent->keylen = keylen;
       map->used++;
       return ent;
     }
+  }
+
+  if (tomb) {
+    tomb->key = key;
+    tomb->keylen = keylen;
+    return tomb;
   }
   unreachable();
 }
